@@ -98,6 +98,7 @@ def swarm_features(rng, force=None) -> Dict[str, bool]:
         "multi_pair": rng.random() < 0.2,
         "any_inputs": rng.random() < 0.25,
         "future_pers": False,     # carve-out 3 (persistent attributes with a future time): only when forced
+        "late_start": rng.random() < 0.25,   # time-based/hybrid simulators whose first step is at t>0
     }
     if force:
         f.update(force)
@@ -130,6 +131,9 @@ def gen_core(seed: int, tier: str = "quick", force=None, transport_mix="mixed",
                 s["init_event"] = rng.choice([None, 0, 0, 1, 2, 3])
             else:
                 s["init_event"] = rng.choice([None, 0])
+        elif feats.get("late_start") and rng.random() < 0.4:
+            # set_initial_event replaces the step at 0 that these simulators get by default
+            s["init_event"] = rng.choice([1, 2, 3])
         if feats.get("any_inputs") and rng.random() < 0.4:
             # accepts inputs on attributes it never declared
             s["any_inputs"] = True
